@@ -10,6 +10,7 @@ def main(argv):
     ap.add_argument("prop", nargs="?")
     ap.add_argument("--tier", default=os.environ.get("VERIF_TIER", "quick"), choices=["quick", "thorough"])
     ap.add_argument("--replay")
+    ap.add_argument("--shrink", help="continue shrinking a replay file with a larger budget (writes <file>.min.json)")
     ap.add_argument("--runs", type=int)
     ap.add_argument("--budget", type=float)
     ap.add_argument("--workers", type=int)
@@ -26,6 +27,18 @@ def main(argv):
         return selftest.main(a)
     if a.replay:
         return runner.replay_file(a.replay)
+    if a.shrink:
+        import json
+
+        doc = json.load(open(a.shrink))
+        mod = runner.load_prop(doc["property"])
+        first = {"seed": doc["seed"], "params": doc["params"], "tape": doc["tape"], "klass": doc["violation"]["class"],
+                 "signature": doc["violation"]["signature"]}
+        out = runner.shrink_violation(mod, first, budget_execs=int(a.runs or 3000), budget_s=float(a.budget or 600))
+        runner.write_replay(a.shrink + ".min.json", doc["property"], out, runner.repo_head())
+        print("shrunk", len(doc["tape"]), "->", len(out["tape"]), "execs", out.get("shrink_execs"))
+        print(out["message"][:1500])
+        return 0
     if not a.prop:
         ap.error("property id required")
     seed = a.seed if a.seed is not None else int(os.environ.get("VERIF_SEED", runner.DEFAULT_SEED))
